@@ -417,6 +417,40 @@ pub fn run(ctx: &Ctx) {
         rt(ctx, &format!("Option<i64>/{}", width_class_i(oi.unwrap() as i128)), &oi);
         let w = gen_wrap(&mut rng, 0);
         rt(ctx, wrap_class(&w), &w);
+        // types of the standard library that bring their own serde implementations (some of them choose between a
+        // text and a compact form by asking the format whether it is human readable: both sides must answer alike)
+        {
+            use std::net::{IpAddr, Ipv4Addr, Ipv6Addr, SocketAddr, SocketAddrV4, SocketAddrV6};
+            let v4 = Ipv4Addr::from(rng.next_u32());
+            let v6 = Ipv6Addr::from(((rng.next_u64() as u128) << 64) | rng.next_u64() as u128);
+            rt(ctx, "std/Ipv4Addr", &v4);
+            rt(ctx, "std/Ipv6Addr", &v6);
+            rt(ctx, "std/IpAddr", &if rng.bool() { IpAddr::V4(v4) } else { IpAddr::V6(v6) });
+            rt(ctx, "std/SocketAddr", &if rng.bool() { SocketAddr::V4(SocketAddrV4::new(v4, rng.next_u32() as u16)) } else { SocketAddr::V6(SocketAddrV6::new(v6, rng.next_u32() as u16, 0, 0)) });
+            rt(ctx, "std/Vec<IpAddr>", &vec![IpAddr::V4(v4), IpAddr::V6(v6)]);
+            rt(ctx, "std/Option<SocketAddrV4>", &Some(SocketAddrV4::new(v4, 4369)));
+            rt(ctx, "std/Duration", &std::time::Duration::new(gen_u64(&mut rng), rng.next_u32() % 1_000_000_000));
+            rt(ctx, "std/NonZeroU32", &std::num::NonZeroU32::new(rng.next_u32() | 1).unwrap());
+            rt(ctx, "std/NonZeroI64", &std::num::NonZeroI64::new(gen_i64(&mut rng) | 1).unwrap());
+            rt(ctx, "std/Wrapping<i32>", &std::num::Wrapping(rng.next_u32() as i32));
+            rt(ctx, "std/Range<i64>", &(gen_i64(&mut rng)..gen_i64(&mut rng)));
+            rt(ctx, "std/RangeInclusive<u8>", &(rng.next_u32() as u8..=rng.next_u32() as u8));
+            rt(ctx, "std/Bound<i32>", &*rng.pick(&[std::ops::Bound::Unbounded, std::ops::Bound::Included(7i32), std::ops::Bound::Excluded(-7)]));
+            rt(ctx, "std/Reverse<u16>", &std::cmp::Reverse(rng.next_u32() as u16));
+            rt(ctx, "std/[u8;4]", &[rng.next_u32() as u8, 0, 255, 1]);
+            rt(ctx, "std/[i64;3]", &[gen_i64(&mut rng), gen_i64(&mut rng), 0]);
+            rt(ctx, "std/[String;0]", &([] as [String; 0]));
+            rt(ctx, "std/BTreeSet<i64>", &(0..rng.below(4)).map(|_| gen_i64(&mut rng)).collect::<std::collections::BTreeSet<i64>>());
+            rt(ctx, "std/HashSet<String>", &(0..rng.below(4)).map(|_| gen_string(&mut rng)).collect::<std::collections::HashSet<String>>());
+            rt(ctx, "std/VecDeque<u32>", &(0..rng.below(4)).map(|_| rng.next_u32()).collect::<std::collections::VecDeque<u32>>());
+            rt(ctx, "std/LinkedList<i8>", &(0..rng.below(4)).map(|_| rng.next_u32() as i8).collect::<std::collections::LinkedList<i8>>());
+            rt(ctx, "std/Box<i64>", &Box::new(gen_i64(&mut rng)));
+            rt(ctx, "std/Cow<str>", &std::borrow::Cow::<str>::Owned(gen_string(&mut rng)));
+            rt(ctx, "std/Result<i32,String>", &if rng.bool() { Ok::<i32, String>(rng.next_u32() as i32) } else { Err::<i32, String>(gen_string(&mut rng)) });
+            rt(ctx, "std/PhantomData", &std::marker::PhantomData::<u8>);
+            rt(ctx, "std/PathBuf", &std::path::PathBuf::from(format!("/tmp/{}", rng.below(1000))));
+            rt(ctx, "std/tuple-12", &(1u8, 2i8, 3u16, 4i16, 5u32, 6i32, 7u64, 8i64, true, 'x', gen_string(&mut rng), 1.5f64));
+        }
         let rv = gen_reserved(&mut rng);
         rt(ctx, &format!("enum/reserved-name/{}", match &rv { Reserved::Nil => "nil", Reserved::Undefined => "undefined", Reserved::True(_) => "true", Reserved::False { .. } => "false", Reserved::Empty => "empty", Reserved::Dotted => "dotted", Reserved::NonAscii(_) => "non-ascii", _ => "other" }), &rv);
         rt(ctx, "Vec<enum/reserved-name>", &vec![gen_reserved(&mut rng), gen_reserved(&mut rng)]);
